@@ -9,18 +9,18 @@ Local Open Scope N_scope.
 (* ---------------------------------------------------------------- the statement as a proposition *)
 
 Definition tx_statement (c : config) (target : bytes) (us : list utxo) (t s : ptx) : Prop :=
-  (* T *) Forall (fun o => o_addr o = target) (t_outputs t) /\
-  (* B *) sumN (map u_coin (spent us t)) = sumN (map o_coin (t_outputs t)) + t_fee t /\
+  (* T *) Forall (fun o => po_addr o = target) (pt_outputs t) /\
+  (* B *) jsum (map u_coin (spent us t)) = jsum (map po_coin (pt_outputs t)) + pt_fee t /\
           (forall p n, asset_total p n (flat_map u_assets (spent us t)) =
-                       asset_total p n (flat_map o_assets (t_outputs t))) /\
-  (* K *) Forall (fun k => In k [0; 1; 2; 3; 8]) (t_keys t) /\ t_valid t = true /\
-  (* F *) signed_ok us t s = true /\ c_a c * t_size s + c_b c <= t_fee t /\
-  (* S *) t_size t <= c_max_tx c /\ t_size s <= c_max_tx c /\
-  (* V *) Forall (fun o => o_vsize o <= c_max_value c) (t_outputs t) /\
-  (* M *) Forall (fun o => c_cpb c * (160 + o_size o) <= o_coin o) (t_outputs t).
+                       asset_total p n (flat_map po_assets (pt_outputs t))) /\
+  (* K *) Forall (fun k => In k [0; 1; 2; 3; 8]) (pt_keys t) /\ pt_valid t = true /\
+  (* F *) signed_ok us t s = true /\ c_a c * pt_size s + c_b c <= pt_fee t /\
+  (* S *) pt_size t <= c_max_tx c /\ pt_size s <= c_max_tx c /\
+  (* V *) Forall (fun o => po_vsize o <= c_max_value c) (pt_outputs t) /\
+  (* M *) Forall (fun o => c_cpb c * (160 + po_size o) <= po_coin o) (pt_outputs t).
 
 Definition C13_statement (c : config) (target : bytes) (us : list utxo) (ts : list (ptx * ptx)) : Prop :=
-  (* P *) Permutation (flat_map t_inputs (map fst ts)) (map utxo_input us) /\
+  (* P *) Permutation (flat_map pt_inputs (map fst ts)) (map utxo_input us) /\
   Forall (fun p => tx_statement c target us (fst p) (snd p)) ts.
 
 (* ---------------------------------------------------------------- reflection *)
@@ -56,7 +56,7 @@ Proof. destruct a; [auto|discriminate]. Qed.
 
 Lemma partition_ok_perm us txs :
   utxos_distinct us = true -> partition_ok us txs = true ->
-  Permutation (flat_map t_inputs txs) (map utxo_input us).
+  Permutation (flat_map pt_inputs txs) (map utxo_input us).
 Proof.
   unfold utxos_distinct, partition_ok. intros Hd H.
   apply andb_true_iff in H as [H Hlen]. apply andb_true_iff in H as [Hnd Hin].
@@ -77,13 +77,13 @@ Proof.
 Qed.
 
 Lemma spent_all us txs t :
-  Permutation (flat_map t_inputs txs) (map utxo_input us) -> In t txs ->
-  map utxo_input (spent us t) = t_inputs t.
+  Permutation (flat_map pt_inputs txs) (map utxo_input us) -> In t txs ->
+  map utxo_input (spent us t) = pt_inputs t.
 Proof.
   intros Hp Ht. unfold spent.
-  assert (Hin : forall x, In x (t_inputs t) -> In x (map utxo_input us)).
+  assert (Hin : forall x, In x (pt_inputs t) -> In x (map utxo_input us)).
   { intros x Hx. eapply Permutation_in; [exact Hp|]. apply in_flat_map. exists t. auto. }
-  induction (t_inputs t) as [|x l IH]; [reflexivity|]. cbn [flat_map].
+  induction (pt_inputs t) as [|x l IH]; [reflexivity|]. cbn [flat_map].
   destruct (find_utxo_In x us (Hin x (or_introl eq_refl))) as [u [Hf Hu]]. rewrite Hf. cbn [app map].
   rewrite Hu, IH; [reflexivity|]. intros y Hy. apply Hin. right. exact Hy.
 Qed.
